@@ -671,6 +671,10 @@ def _interp_internal_from_weight(arr, axis, left, right, lhs_idx, rhs_idx, frac,
     vright = arr[rhs_idx]
     newval = vleft + _frac*(vright - vleft)
 
+    # infinite values (inf - inf above): same result as numpy's interp
+    newval = np.where(np.isnan(newval), (1-_frac)*vleft + _frac*vright, newval)
+    newval = np.where(_frac == 0, vleft, newval) # exact at the nodes
+
     # fill values
     newval[left_idx] = left
     newval[right_idx] = right
